@@ -23,6 +23,7 @@
 #
 #
 # Author: Ilya Baldin (ibaldin@renci.org)
+import copy
 import enum
 from typing import Dict, Any, List, Tuple
 import os
@@ -148,7 +149,9 @@ class ComponentCatalog:
                 else:
                     isliver.node_id = str(uuid.uuid4())
                 if interface_labels is not None:
-                    isliver.set_labels(interface_labels[id_index])
+                    # a copy of the caller's object: local_name is written into it below, and one
+                    # Labels object may have been passed for several ports
+                    isliver.set_labels(copy.deepcopy(interface_labels[id_index]))
                 # set local_name to port name from catalog, however for sr-iov cards it needs to
                 # be a list of identical names. We use bdf labels as indicator of how many devices
                 # are behind it.
